@@ -121,8 +121,10 @@ class KsFinder(importlib.abc.MetaPathFinder):
         return spec
 
 
-def install(prefixes=("dulwich",), block_ext=True, repo="/repo"):
+def install(prefixes=("dulwich",), block_ext=True, repo=None):
     """install the import hook; must run before dulwich is imported"""
+    import os
+    repo = repo or os.environ.get("VERIF_REPO", "/repo")
     from . import models
     for m in list(sys.modules):
         if m == "dulwich" or m.startswith("dulwich."):
